@@ -45,9 +45,72 @@ def extras():
     return out
 
 
+def adapter_cases():
+    """adapter / tunnel classes outside the term language: (name, construct factory, [(build input, expected parse result)])"""
+    import construct as C
+    import collections
+    obj_, this = C.obj_, C.this
+    coord = collections.namedtuple("coord", "x y")
+    cases = [
+        ("ExprAdapter(Byte, obj_+1, obj_-1)", lambda: C.ExprAdapter(C.Byte, obj_ + 1, obj_ - 1), [(v, v) for v in range(1, 257)]),
+        ("ExprAdapter(Int16sl, -obj_, -obj_)", lambda: C.ExprAdapter(C.Int16sl, -obj_, -obj_), [(v, v) for v in (-32767, -1, 0, 1, 255, 256, 32767)]),
+        ("ExprSymmetricAdapter(Byte, obj_ ^ 0xff)", lambda: C.ExprSymmetricAdapter(C.Byte, obj_ ^ 0xff), [(v, v) for v in range(256)]),
+        ("ExprAdapter lambdas with context", lambda: C.Struct("k" / C.Byte, "v" / C.ExprAdapter(C.Byte, lambda o, c: o + c.k, lambda o, c: o - c.k)),
+         [(dict(k=k, v=v), dict(k=k, v=v)) for k in (0, 1, 5) for v in (k, k + 1, k + 250)]),
+        ("Slicing(Array(4,Byte),4,1,3,empty=0)", lambda: C.Slicing(C.Array(4, C.Byte), 4, 1, 3, empty=0), [([a, b], [a, b]) for a in (0, 1, 255) for b in (0, 7)]),
+        ("Slicing(Array(5,Int16ub),5,0,5,step=2)", lambda: C.Slicing(C.Array(5, C.Int16ub), 5, 0, 5, step=2, empty=9), [([1, 2, 3], [1, 2, 3]), ([0, 0, 65535], [0, 0, 65535])]),
+        ("Indexing(Array(4,Byte),4,2,empty=0)", lambda: C.Indexing(C.Array(4, C.Byte), 4, 2, empty=0), [(v, v) for v in (0, 1, 7, 255)]),
+        ("Indexing first/last", lambda: C.Struct("a" / C.Indexing(C.Array(3, C.Byte), 3, 0, empty=1), "b" / C.Indexing(C.Array(3, C.Byte), 3, 2, empty=2)),
+         [(dict(a=5, b=6), dict(a=5, b=6)), (dict(a=0, b=0), dict(a=0, b=0))]),
+        ("NamedTuple over Array", lambda: C.NamedTuple("coord", "x y", C.Array(2, C.Byte)), [(coord(1, 2), [1, 2]), ([3, 4], [3, 4])]),
+        ("NamedTuple over Struct", lambda: C.NamedTuple("coord", "x y", C.Struct("x" / C.Byte, "y" / C.Int16ub)), [(coord(1, 300), [1, 300])]),
+        ("Transformed reverse 3", lambda: C.Transformed(C.Struct("a" / C.Byte, "b" / C.Int16ub), lambda b: b[::-1], 3, lambda b: b[::-1], 3), [(dict(a=1, b=0x0203), dict(a=1, b=0x0203))]),
+        ("Restreamed nibble-swap", lambda: C.Restreamed(C.Struct("a" / C.Byte, "b" / C.VarInt), lambda b: bytes([((b[0] << 4) | (b[0] >> 4)) & 0xff]), 1,
+                                                      lambda b: bytes([((b[0] << 4) | (b[0] >> 4)) & 0xff]), 1, lambda n: n),
+         [(dict(a=0x12, b=300), dict(a=0x12, b=300)), (dict(a=0, b=0), dict(a=0, b=0))]),
+        ("Compressed(Prefixed) in struct", lambda: C.Struct("z" / C.Prefixed(C.Byte, C.Compressed(C.GreedyBytes, "zlib")), "t" / C.Byte),
+         [(dict(z=b"", t=1), dict(z=b"", t=1)), (dict(z=b"aaaaaaaaaaaaaaaa", t=2), dict(z=b"aaaaaaaaaaaaaaaa", t=2))]),
+        ("LazyBound recursion", None, [(dict(value=2, next=dict(value=1, next=dict(value=0, next=None))), dict(value=2, next=dict(value=1, next=dict(value=0, next=None)))),
+                                      (dict(value=0, next=None), dict(value=0, next=None))]),
+        ("FocusedSeq selects member", lambda: C.FocusedSeq("num", C.Const(b"S"), "num" / C.Int16ul, C.Terminated), [(v, v) for v in (0, 1, 300, 65535)]),
+        ("Mapping over Flag", lambda: C.Mapping(C.Flag, {"yes": True, "no": False}), [("yes", "yes"), ("no", "no")]),
+        ("Select of adapters", lambda: C.Select(C.OneOf(C.Byte, [1, 2]), C.ExprAdapter(C.Int16ub, obj_ + 1000, obj_ - 1000)), [(1, 1), (2, 2), (2000, 2000), (1000, 1000)]),       # second alternative's first byte is never 1 or 2
+    ]
+    def node():
+        d = C.Struct("value" / C.Byte, "next" / C.If(this.value > 0, C.LazyBound(lambda: d)))
+        return d
+    cases = [(n, (node if f is None else f), v) for n, f, v in cases]
+    return cases
+
+
+def run_adapters(r):
+    for name, mk_, vals in adapter_cases():
+        d = mk_()
+        for vin, vexp in vals:
+            r.states += 1
+            b = rt.build(d, vin, {})
+            case = {"adapter": name, "value": repr(vin)}
+            if b[0] != "ok":
+                r.case(nontrivial=True, outcome="build-failed", validated=1)
+                r.violation("C01/build-rejects-domain-value/adapter:" + name.split("(")[0].split(" ")[0], case, "%s.build(%r) -> %r" % (name, vin, b))
+                continue
+            p = rt.parse(d, b[1], {})
+            if p[0] != "ok" or not matches(vexp, p[1]) or p[2] != len(b[1]):
+                r.case(nontrivial=True, outcome="differs", validated=1)
+                r.violation("C01/roundtrip-differs/adapter:" + name.split("(")[0].split(" ")[0], case, "%s: build(%r) = %s parses to %r (consumed %s), expected %r" % (name, vin, b[1].hex(), p[1:2], p[2] if p[0] == "ok" else "-", vexp))
+                continue
+            # the same instance again (second use)
+            b2 = rt.build(d, vin, {})
+            if b2 != b:
+                r.violation("C01/roundtrip-differs/adapter:" + name.split("(")[0].split(" ")[0], case, "%s: second build of %r gives %r, first %r" % (name, vin, b2, b))
+            r.case(nontrivial=True, outcome="ok", transitions=3, validated=1)
+        r.sample({"adapter": name, "values": len(vals)}, cap=3)
+
+
 def units(tier):
     us = [{"terms": [[t, tn] for t, tn in ch]} for ch in chunks(terms_for(tier), 10)]
     us.append({"extras": True})
+    us.append({"adapters": True})
     return us
 
 
@@ -185,6 +248,9 @@ def run_term(t, tn, tier, r):
 
 def run_unit(unit, tier):
     r = UnitResult()
+    if unit.get("adapters"):
+        run_adapters(r)
+        return r
     if unit.get("extras"):
         for t, vals in extras():
             d = T.mk(t)
@@ -203,5 +269,8 @@ def run_unit(unit, tier):
 
 
 def replay(case):
+    if "adapter" in case:
+        r = UnitResult(); run_adapters(r)
+        return [v for v in r.violations if v["case"] == case]
     t = case["term"]
     return check_value(t, T.mk(t), dec_value(case["value"]), dec_value(case["expected"]), case.get("kw") or {}, T.sig_of(t))[1]
